@@ -431,6 +431,12 @@ func inlinePackage(p *packages.Package, newTypes map[string]*types.Package, leve
 			})
 		}
 	}
+	// a range loop over a short literal list is the sequence of its iterations: `for _, part := range [][]byte{h, d}
+	// { body }` reads `{ part := h; body } { part := d; body }` (no break/continue/goto/label/defer/closure in body;
+	// the elements are plain variables of the element type)
+	for _, f := range files {
+		nInl += unrollLiteralRanges(f, info)
+	}
 	// unsigned division / remainder by a constant power of two are the shift and the mask (`path / (1<<32)` reads
 	// `path >> 32`, `path % (1<<32)` reads `path & 0xffffffff`): exact for unsigned operands of any width
 	for _, f := range files {
@@ -781,4 +787,113 @@ func modulePathOf(pkgs []*packages.Package) string {
 func inModuleFunc(pkgs []*packages.Package) func(*packages.Package) bool {
 	m := modulePathOf(pkgs)
 	return func(p *packages.Package) bool { return p.PkgPath == m || strings.HasPrefix(p.PkgPath, m+"/") }
+}
+
+// unrollLiteralRanges rewrites, in place, every `for _, x := range <literal of 1..4 plain variables> { body }`.
+func unrollLiteralRanges(f *ast.File, info *types.Info) int {
+	n := 0
+	unroll := func(rs *ast.RangeStmt) ast.Stmt {
+		if rs.Tok != token.DEFINE || rs.Value == nil {
+			return nil
+		}
+		if rs.Key != nil {
+			if k, ok := rs.Key.(*ast.Ident); !ok || k.Name != "_" {
+				return nil
+			}
+		}
+		val, ok := rs.Value.(*ast.Ident)
+		if !ok || val.Name == "_" {
+			return nil
+		}
+		cl, ok := ast.Unparen(rs.X).(*ast.CompositeLit)
+		if !ok || len(cl.Elts) == 0 || len(cl.Elts) > 4 {
+			return nil
+		}
+		var elemT types.Type
+		switch t := info.TypeOf(cl).(type) {
+		case nil:
+			return nil
+		default:
+			switch u := t.Underlying().(type) {
+			case *types.Slice:
+				elemT = u.Elem()
+			case *types.Array:
+				elemT = u.Elem()
+			default:
+				return nil
+			}
+		}
+		for _, e := range cl.Elts {
+			id, ok := e.(*ast.Ident)
+			if !ok {
+				return nil
+			}
+			if _, isVar := info.Uses[id].(*types.Var); !isVar || !types.Identical(info.TypeOf(id), elemT) {
+				return nil
+			}
+		}
+		okBody, used := true, false
+		vobj := info.Defs[val]
+		ast.Inspect(rs.Body, func(nd ast.Node) bool {
+			switch x := nd.(type) {
+			case *ast.BranchStmt, *ast.LabeledStmt, *ast.DeferStmt, *ast.FuncLit, *ast.GoStmt:
+				okBody = false
+			case *ast.Ident:
+				if vobj != nil && info.Uses[x] == vobj {
+					used = true
+				}
+			case *ast.AssignStmt:
+				// the elements must not be re-assigned by the body (each iteration reads the original variable)
+				for _, l := range x.Lhs {
+					if lid, ok := l.(*ast.Ident); ok {
+						for _, e := range cl.Elts {
+							if info.Uses[lid] != nil && info.Uses[lid] == info.Uses[e.(*ast.Ident)] {
+								okBody = false
+							}
+						}
+					}
+				}
+			}
+			return okBody
+		})
+		if !okBody || !used {
+			return nil
+		}
+		out := &ast.BlockStmt{Lbrace: rs.For, Rbrace: rs.Body.Rbrace}
+		for _, e := range cl.Elts {
+			body := cloneAST(rs.Body, nil).(*ast.BlockStmt)
+			v := &ast.Ident{NamePos: val.NamePos, Name: val.Name}
+			src := &ast.Ident{NamePos: e.Pos(), Name: e.(*ast.Ident).Name}
+			blk := &ast.BlockStmt{Lbrace: rs.For, Rbrace: rs.Body.Rbrace}
+			blk.List = append(blk.List, &ast.AssignStmt{Lhs: []ast.Expr{v}, TokPos: val.NamePos, Tok: token.DEFINE, Rhs: []ast.Expr{src}})
+			blk.List = append(blk.List, body.List...)
+			out.List = append(out.List, blk)
+		}
+		n++
+		return out
+	}
+	var visitList func(list []ast.Stmt)
+	ast.Inspect(f, func(nd ast.Node) bool {
+		var list []ast.Stmt
+		switch x := nd.(type) {
+		case *ast.BlockStmt:
+			list = x.List
+		case *ast.CaseClause:
+			list = x.Body
+		case *ast.CommClause:
+			list = x.Body
+		default:
+			return true
+		}
+		for i, st := range list {
+			if rs, ok := st.(*ast.RangeStmt); ok {
+				if rep := unroll(rs); rep != nil {
+					list[i] = rep
+				}
+			}
+		}
+		return true
+	})
+	_ = visitList
+	return n
 }
